@@ -104,7 +104,7 @@ namespace rkcommon {
 
       // Data members //
 
-      std::array<rkcommon::byte_t, sizeof(T)> storage;
+      alignas(T) std::array<rkcommon::byte_t, sizeof(T)> storage;
       bool hasValue{false};
     };
 
